@@ -131,19 +131,61 @@ def specOpenapi (op ans : List String) : String :=
     else "-"
   | _ => "-"
 
-/-- C17 (HTTP level): an API route outside the login exceptions must not be served without a session -/
+def baseNameOf (h : Str) : Str := (h.reverse.takeWhile (· ≠ 58)).reverse
+
+def containsSubB (needle : Str) : Str → Bool
+  | [] => needle.isEmpty
+  | b :: bs => needle.isPrefixOf (b :: bs) || containsSubB needle bs
+
+/-- the hand-written classification of handlers (DESIGN.md App. C) -/
+def handlerMutating (h method : Str) : Bool :=
+  let bn := baseNameOf h
+  if sessionHandlers.contains bn then false
+  else if mutatingPrefixes.any (·.isPrefixOf bn) then true
+  else if readonlyPrefixes.any (·.isPrefixOf bn) then false
+  else method != methodGet
+
+def handlerAdminOnly (h : Str) : Bool :=
+  adminOnlyHandlers.contains (baseNameOf h) || transferMarkers.any (containsSubB · h)
+
+/-- C17 (HTTP level): an API route outside the login exceptions is never served without a session, a
+session without any known role reaches nothing, a visitor reaches no mutating handler, a developer no
+user-management / transfer handler -/
 def specConsole (op ans : List String) : String :=
   match op with
-  | "chttp" :: _ :: uri :: rest =>
+  | "chttp" :: method :: uri :: rest =>
     let s := field rest "session"
+    let h := bytesOf (field rest "h")
     let path := bytesOf (pathOfUri uri)
     let isApi := containsCIstr "/rnacos/api/console/" path
-    let noSession := sessionRoles (if s == "none" || s == "" || s == "empty" then [] else bytesOf s) == none
-    if isApi && noSession && !consoleLoginExceptions.contains path then
-      match ans with
-      | ["nologin"] => "spec ok"
-      | ["served", "reached=0"] => "spec ok"
-      | _ => s!"spec FAIL console API {uri} served without a session"
+    let roles := sessionRoles (if s == "none" || s == "" || s == "empty" then [] else bytesOf s)
+    let servedReached := ans == ["served", "reached=1"]
+    if !isApi || consoleLoginExceptions.contains path then "-"
+    else match roles with
+      | none =>
+        (match ans with
+         | ["nologin"] => "spec ok"
+         | ["served", "reached=0"] => "spec ok"
+         | _ => s!"spec FAIL console API {uri} served without a session")
+      | some rs =>
+        let known := rs.filter fun r => r == roleManager || r == roleDeveloper || r == roleVisitor
+        if known.isEmpty then
+          (if servedReached then s!"spec FAIL console API {uri} served to a session without any granted role" else "spec ok")
+        else if h.isEmpty then "-"
+        else if !(known.contains roleManager) && !(known.contains roleDeveloper) && handlerMutating h (bytesOf method) then
+          (if servedReached then s!"spec FAIL a visitor reached the mutating handler {field rest "h"}" else "spec ok")
+        else if !(known.contains roleManager) && handlerAdminOnly h then
+          (if servedReached then s!"spec FAIL a developer/visitor reached the admin-only handler {field rest "h"}" else "spec ok")
+        else "-"
+  | _ => "-"
+
+/-- C17 (decision function): role sets without a known role grant nothing -/
+def specPerm (op ans : List String) : String :=
+  match op with
+  | ["perm", roles, _, _] =>
+    let rs := (((roles.drop 6).toString.splitOn ",").filter (· ≠ "")).map fun r => bytesOf (unE r)
+    let known := rs.filter fun r => r == roleManager || r == roleDeveloper || r == roleVisitor
+    if known.isEmpty then (if ans == ["false"] then "spec ok" else "spec FAIL a role set without any known role was granted a route")
     else "-"
   | _ => "-"
 
